@@ -56,6 +56,10 @@ Definition apply_quirks (o : opts) (fl : flags) : flags :=
   let e := if o_force_nozwj o then false else e in
   mkFlags (f_sync fl) u e (f_kittykb fl) (f_sixels fl) (f_theme fl) (f_osc176 fl) (f_inband fl) (f_nomouse fl).
 
+(* what New's reply loop stores: the detected capabilities; disableMouse comes from the options *)
+Definition with_nomouse (nm : bool) (fl : flags) : flags :=
+  mkFlags (f_sync fl) (f_unicode fl) (f_explicit fl) (f_kittykb fl) (f_sixels fl) (f_theme fl) (f_osc176 fl) (f_inband fl) nm.
+
 Definition flags0 (nomouse : bool) : flags := mkFlags false false false false false false false false nomouse.
 
 (* ---------- evaluated output tokens and their bytes ---------- *)
@@ -278,7 +282,8 @@ Fixpoint run_calls (cs : list callname) (o : opts) (det : flags) (m : mst) : mst
       run_calls r o det
         match c with
         | CnOpenTty => set_parser true (set_w true [] (s_out m) m)      (* newWriter, ansi.NewParser *)
-        | CnSendQueries => set_fl det (run_top send_queries m)            (* then New's reply loop stores what was detected *)
+        | CnSendQueries =>                                                 (* then New's reply loop stores what was detected *)
+            set_fl (with_nomouse (o_nomouse o) det) (run_top send_queries m)
         | CnApplyQuirks => set_fl (apply_quirks o (s_fl m)) m
         | CnEnterAlt => run_leaf enter_alt m
         | CnEnableModes => run_leaf enable_modes m
@@ -512,7 +517,7 @@ Definition model_chunks (c : c04case) : list (Z * list otok) :=
 Definition case_agrees (c : c04case) : bool :=
   let mc := model_chunks c in
   chunks_eqb mc (k_obs c)
-  && list_eqb Bool.eqb (flags_list (apply_quirks (k_opts c) (k_det c))) (k_caps c)
+  && list_eqb Bool.eqb (flags_list (apply_quirks (k_opts c) (with_nomouse (o_nomouse (k_opts c)) (k_det c)))) (k_caps c)
   && (d_kflags (case_data c) =? k_kflags c)
   && term_eqb (sem_toks (flat_map snd mc) (case_t0 c)) (binterp (flat_map snd (k_obs c)) (case_t0 c)).
 
